@@ -193,4 +193,128 @@ example :
       = { outbound := some 2, target := "re.test:443".toList, dialIp := false, probeReq := none } := by
   decide
 
+/-! ## normalisation of the sniffed value
+
+`(nameTarget d port).1` is the target the name rows above produce, `.2` the `dialIp` flag. -/
+
+/-- An IP literal, bare or in brackets: target = `JoinHostPort(literal, dst port)` (brackets added
+exactly when the literal contains `:`), and the dial is treated as an IP dial. -/
+theorem ip_literal_normalised (d : Str) (p : Nat) (h : parseAddrOk (stripBrackets d) = true) :
+    nameTarget d p = (joinHostPort (stripBrackets d) (itoa p), true) ∧
+    (hasChar ':' (stripBrackets d) = false →
+        (nameTarget d p).1 = stripBrackets d ++ ':' :: itoa p) ∧
+    (hasChar ':' (stripBrackets d) = true →
+        (nameTarget d p).1 = '[' :: (stripBrackets d ++ ']' :: ':' :: itoa p)) := by
+  have e : nameTarget d p = (joinHostPort (stripBrackets d) (itoa p), true) := by
+    unfold nameTarget; simp [h]
+  refine ⟨e, ?_, ?_⟩ <;> intro hc <;> simp [e, joinHostPort, hc]
+
+/-- the bracketed spelling gives the same target as the bare literal. -/
+theorem bracketed_literal_same_as_bare (x : Str) (p : Nat) (hx : hasChar '[' x = false) :
+    nameTarget ('[' :: (x ++ [']'])) p = nameTarget x p := by
+  unfold nameTarget
+  rw [stripBrackets_bracketed, stripBrackets_of_no_open hx]
+
+/-- A value that already carries a port (and is not a literal): sent as it is, port included. -/
+theorem carried_port_kept (d h q : Str) (p : Nat) (hn : parseAddrOk (stripBrackets d) = false)
+    (hs : splitHostPort (stripBrackets d) = some (h, q)) :
+    nameTarget d p = (stripBrackets d, false) ∧ splitHostPort (nameTarget d p).1 = some (h, q) := by
+  have e : nameTarget d p = (stripBrackets d, false) := by
+    unfold nameTarget; simp [hn, hs]
+  exact ⟨e, by rw [e]; exact hs⟩
+
+/-- Anything else: `JoinHostPort(name, dst port)`. -/
+theorem plain_name_joined (d : Str) (p : Nat) (hn : parseAddrOk (stripBrackets d) = false)
+    (hs : splitHostPort (stripBrackets d) = none) :
+    nameTarget d p = (joinHostPort (stripBrackets d) (itoa p), false) := by
+  unfold nameTarget; simp [hn, hs]
+
+/-- **Never a malformed target**: whenever the sniffed value (after removing one enclosing pair of
+brackets) contains no `[` or `]`, the target parses back with `net.SplitHostPort` — to exactly
+(value, destination port), or, when the value carried its own port, to that host and port. -/
+theorem name_target_well_formed (d : Str) (p : Nat)
+    (hb : hasChar '[' (stripBrackets d) = false ∧ hasChar ']' (stripBrackets d) = false) :
+    splitHostPort (nameTarget d p).1 = some (stripBrackets d, itoa p) ∨
+    ((nameTarget d p).1 = stripBrackets d ∧ (splitHostPort (stripBrackets d)).isSome = true) :=
+  nameTarget_wellFormed d p hb
+
+/-- every zone-less IP literal is bracket-free, hence covered by `name_target_well_formed`:
+the target of a literal `lit` (bare or `[lit]`) splits back into `(lit, dst port)`. -/
+theorem ip_literal_target_well_formed (d : Str) (p : Nat) (h : parseAddrOk (stripBrackets d) = true)
+    (hz : hasChar '%' (stripBrackets d) = false) :
+    splitHostPort (nameTarget d p).1 = some (stripBrackets d, itoa p) ∧ (nameTarget d p).2 = true := by
+  have nb := parseAddrOk_noBr h hz
+  have e := (ip_literal_normalised d p h).1
+  rw [e]
+  have pp := itoa_plain p
+  exact ⟨joinHostPort_wellFormed _ _ nb.1 nb.2 pp.1 pp.2.1 pp.2.2, rfl⟩
+
+/-- the IP rows: `dst.String()` always parses back into (address text, port). -/
+theorem ip_target_well_formed (dst : Dst) :
+    splitHostPort (fmtAddrPort dst) = some (fmtAddr dst, itoa dst.port) :=
+  fmtAddrPort_wellFormed dst
+
+example : (nameTarget "[2606:4700:20::681a:d1f]".toList 443) = ("[2606:4700:20::681a:d1f]:443".toList, true) := by decide
+example : (nameTarget "2606:4700:20::681a:d1f".toList 443) = ("[2606:4700:20::681a:d1f]:443".toList, true) := by decide
+example : (nameTarget "1.2.3.4".toList 80) = ("1.2.3.4:80".toList, true) := by decide
+example : (nameTarget "[1.2.3.4]".toList 80) = ("1.2.3.4:80".toList, true) := by decide
+example : (nameTarget "Example.COM.".toList 80) = ("Example.COM.:80".toList, false) := by decide
+example : (nameTarget "example.com:8443".toList 80) = ("example.com:8443".toList, false) := by decide
+example : (nameTarget "[::1]:8443".toList 80) = ("[::1]:8443".toList, false) := by decide
+example : (nameTarget "a:b:c".toList 80) = ("[a:b:c]:80".toList, false) := by decide
+-- the hypothesis of `name_target_well_formed` is needed: an inner bracket gives a target that
+-- `net.SplitHostPort` rejects (see design note: zone identifiers / garbage with brackets)
+example : splitHostPort (nameTarget "fe80::1%]x".toList 80).1 = none := by decide
+example : parseAddrOk "fe80::1%]x".toList = true := by decide
+
+/-! ### the sniffer's own normalisation (`sniffing.NormalizeDomain`), end to end -/
+
+/-- plain names: lower-cased, surrounding space and one trailing dot removed — and then the
+target is `name:port`. -/
+theorem sniffed_plain_name (raw : Str) (p : Nat) (hp : Plain (preNorm raw)) :
+    normalizeDomain raw =
+      (if (preNorm raw).getLast? = some '.' then (preNorm raw).dropLast else preNorm raw) :=
+  normalize_plain hp
+
+/-- `name:port` and `v4:port`: the port is dropped by the sniffer, the destination port is used. -/
+theorem sniffed_host_port (raw h q : Str) (p : Nat) (e : preNorm raw = h ++ ':' :: q)
+    (hh : Plain h) (hq : Plain q) :
+    normalizeDomain raw = h ∧
+    splitHostPort (nameTarget (normalizeDomain raw) p).1 = some (h, itoa p) := by
+  have n := normalize_host_port e hh hq
+  refine ⟨n, ?_⟩
+  rw [n]
+  have sb : stripBrackets h = h := stripBrackets_of_no_open hh.2.1
+  have hs : splitHostPort h = none := by unfold splitHostPort; rw [splitLast_none hh.1]
+  rcases nameTarget_wellFormed h p (by rw [sb]; exact hh.noBr) with w | ⟨_, w⟩
+  · rw [sb] at w; exact w
+  · rw [sb, hs] at w; simp at w
+
+/-- `[literal]` and `[literal]:port`: the sniffer hands over the bare literal; the target is
+`JoinHostPort(literal, dst port)` and the dial is an IP dial. -/
+theorem sniffed_bracketed_literal (raw x q : Str) (p : Nat)
+    (e : preNorm raw = '[' :: (x ++ [']']) ∨ (preNorm raw = '[' :: (x ++ ']' :: ':' :: q) ∧ Plain q))
+    (hx : parseAddrOk x = true) (hz : hasChar '%' x = false) :
+    normalizeDomain raw = x ∧
+    nameTarget (normalizeDomain raw) p = (joinHostPort x (itoa p), true) ∧
+    splitHostPort (joinHostPort x (itoa p)) = some (x, itoa p) := by
+  have nb := parseAddrOk_noBr hx hz
+  have hne : x ≠ [] := by rintro rfl; simp [parseAddrOk] at hx
+  have n : normalizeDomain raw = x := by
+    rcases e with e | ⟨e, hq⟩
+    · exact normalize_bracketed e nb hne
+    · exact normalize_bracketed_port e nb hq
+  have sb : stripBrackets x = x := stripBrackets_of_no_open nb.1
+  have l := ip_literal_normalised x p (by rw [sb]; exact hx)
+  have pp := itoa_plain p
+  rw [n]
+  refine ⟨rfl, ?_, joinHostPort_wellFormed _ _ nb.1 nb.2 pp.1 pp.2.1 pp.2.2⟩
+  rw [l.1, sb]
+
+example : normalizeDomain " WWW.Example.COM. ".toList = "www.example.com".toList := by decide
+example : normalizeDomain "Example.com:8443".toList = "example.com".toList := by decide
+example : normalizeDomain "[2606:4700::1111]:443".toList = "2606:4700::1111".toList := by decide
+example : normalizeDomain "[2606:4700::1111]".toList = "2606:4700::1111".toList := by decide
+example : normalizeDomain "2606:4700::1111".toList = "2606:4700::1111".toList := by decide
+
 end DaeVerif.C18.Props
